@@ -117,7 +117,11 @@ def r11_2(ctx) -> None:
         signed = [k.value for k in x.keywords if k.arg == "signed"]
         if L == f"({num}.bit_length()+7)//8" and len(x.args) > 1 and const_value(x.args[1]) == "big" and (not signed or is_const(signed[0], False)):
             ok = True
-    ctx.check(ok, "R11.2", i2b, i2b.node, i2b.short, "int_to_base64 is not the minimal unsigned big-endian encoding", "num.to_bytes((num.bit_length() + 7) // 8, 'big', signed=False)",
+    from .c19 import _i2b_folded
+    fi_ = _i2b_folded(ctx)
+    if fi_ is not None:
+        ok = not fi_
+    ctx.check(ok, "R11.2", i2b, i2b.node, i2b.short, "int_to_base64 is not the minimal unsigned big-endian encoding" + (": " + fi_[0] if fi_ else ""), "num.to_bytes((num.bit_length() + 7) // 8, 'big', signed=False)",
               construct="int_to_base64 codec")
     RB = P.cls(BINDINGS["RSAKey"])
     n = 0
@@ -765,7 +769,8 @@ def r11_18(ctx) -> None:
         srcs = [t_ for node in fn_nodes(fn) if isinstance(node, ast.Call) and isinstance(node.func, ast.Attribute) and node.func.attr in ("from_private_bytes", "from_public_bytes")
                 for t_ in resolve_all(eng, fn, node.func.value)]
         n += len(srcs)
-        ctx.check(bool(srcs) and all(x == f"{tab}[{op}['crv']]" for x in srcs), "R11.18", fn, fn.node, f"{fn.short} :: key class", f"the OKP key class is {srcs}, not {tab}[{op}['crv']]",
+        # (`TAB.get(crv)` names the same class as `TAB[crv]` wherever it does not answer None, which the call on it would not survive)
+        ctx.check(bool(srcs) and all(x in (f"{tab}[{op}['crv']]", f"{tab}.get({op}['crv'])", f"{tab}.get({op}['crv'], None)") for x in srcs), "R11.18", fn, fn.node, f"{fn.short} :: key class", f"the OKP key class is {srcs}, not {tab}[{op}['crv']]",
                   f"{tab}[{op}['crv']]", construct=f"OKP class lookup in {fn.short}")
     ctx.count("R11.18", n, 2, "OKP import class look-ups")
 
